@@ -4,6 +4,8 @@ package torrent
 
 import (
 	"net"
+	"reflect"
+	"runtime"
 	"time"
 
 	"github.com/cenkalti/rain/v2/internal/infodownloader"
@@ -58,4 +60,12 @@ func VerifNextInfoDownload(maxMetadataSize uint, peers []VerifMetaPeer) (pick in
 		return -1, 0
 	}
 	return index[id.Peer.(*peer.Peer)], len(id.Bytes)
+}
+
+// VerifMetadataHandlerSource returns the path of the source file that defines
+// (*torrent).handleMetadataMessage in the tree the harness was built from.
+func VerifMetadataHandlerSource() string {
+	pc := reflect.ValueOf((*torrent).handleMetadataMessage).Pointer()
+	f, _ := runtime.FuncForPC(pc).FileLine(pc)
+	return f
 }
